@@ -357,3 +357,23 @@ def gen_malformed(rng):
     else:
         md["funcs"].append({"fs": rng.choice(FS), "basis": True, "diff": False})
     return md
+
+
+def systematic_family():
+    """Mesh property x reference-element property subsets, run first in every run: each of the six
+    (outward) normals properties alone and every unordered pair, with and without adjacent_face, plus
+    adjacent_face alone; on a minimal kernel (scalar + one field)."""
+    import itertools
+    subsets = [[p] for p in REFPROPS] + [list(c) for c in itertools.combinations(REFPROPS, 2)]
+    out = []
+    for mesh in (["adjacent_face"], []):
+        for i, ps in enumerate([[]] + subsets if mesh else subsets):
+            md = blank("ks")
+            md["args"] = [{"k": "scalar", "dt": "real", "acc": "read"},
+                          {"k": "field", "dt": "real", "vec": 1, "acc": "inc", "fs": "w1", "st": "none",
+                           "mesh": "none"}]
+            # pairs are given in both orders across the two mesh settings
+            md["refelem"] = list(reversed(ps)) if (not mesh and len(ps) == 2) else list(ps)
+            md["mesh"] = list(mesh)
+            out.append(md)
+    return out
